@@ -33,7 +33,8 @@ def cases(draw, tier="quick"):
         for _ in range(draw(st.sampled_from([0, 0, 0, 1, 2]))):
             vars_.insert(draw(st.integers(0, len(vars_))), nf + draw(st.integers(0, len(UNKNOWN) - 1)))
     limit = draw(st.one_of(st.none(), st.integers(0, spec["mesh"]["nlev"] - 1)))
-    return dict(spec=spec, vars=vars_, limit=limit, abs_out=draw(st.booleans()))
+    return dict(spec=spec, vars=vars_, limit=limit, abs_out=draw(st.booleans()),
+                how=draw(st.sampled_from(["api", "api", "cli"])))
 
 
 def compact(case):
@@ -62,11 +63,17 @@ def check_case(case, ctx):
     ctx.nontrivial(fi != list(range(nf)) or L < plot.nlev - 1 or "scattered" in labs or "non-monotone" in labs)
     out = os.path.join(root, "out") if case["abs_out"] else "out"
     v = []
+    ctx.label("how:" + case.get("how", "api"))
     try:
-        c = qcall(Colander, "src", limit_level=limit, output=out, variables=variables)
-        qcall(c.strain)
+        if case.get("how") == "cli":
+            import amr_kitchen.colander.cli as cli
+            argv = ["colander", "src", "-v"] + variables + (["-l", str(limit)] if limit is not None else []) + ["-o", out]
+            common.run_main(cli.main, argv)
+        else:
+            c = qcall(Colander, "src", limit_level=limit, output=out, variables=variables)
+            qcall(c.strain)
     except Exception as e:
-        return [f"colander raised {type(e).__name__}: {e}"]
+        return [f"colander raised {type(e).__name__}: {e} (via {case.get('how', 'api')})"]
     v += common.taste_accepts("out")
     a = refread.read_plotfile("src")
     common.check_spec_roundtrip(plot, a)      # harness self-check: reference reader agrees with the spec
